@@ -7,3 +7,5 @@ import RSVerif.Properties.C03
 #print axioms RS.engines_agree_encode
 #print axioms RS.engines_agree_decode
 #print axioms RS.engines_agree_objects
+#print axioms RS.loops_eq_model
+#print axioms RS.simd_kernel_spec
